@@ -89,6 +89,9 @@ def _base(kind, seed, **kw):
         'answers': {'passkey': ['right', 'right'], 'wrong_bit': 0, 'compare': [True, True],
                     'confirm': [True, True], 'accept': True},
         'passkey': None, 'delay': 0, 'acl': 27, 'tamper': None, 'reconnect': [],
+        'initiator': 'central',     # link role of the device whose application calls pair()
+        'think': [0, 0],            # per device: time its user takes to answer a prompt (>0 virtual s, <0 loop turns)
+        'attempts': [],             # further pairings on the SAME connection: [{'answers': ...}, ...]
     }
     c.update(kw)
     return c
@@ -114,7 +117,11 @@ def plan(tier, seed):
     # (2) sampled product
     nmix = 4000 if tier == 'quick' else 30000
     rng = random.Random(S ^ 0xC13)
+    rng2 = random.Random(S ^ 0x2C13)
     neg_kinds = ['ok', 'ok', 'ok', 'ok', 'wrong', 'none', 'compare-no', 'confirm-no', 'accept-no']
+
+    def think_time():
+        return rng2.choice([0, 0, 0.5, 2.0, 7.0, -1, -2, -3, -5, -8, -13, -21, -34, -55])
     for i in range(nmix):
         scp = [(True, True), (False, False), (True, False), (False, True)][i % 4]
         start = ['central', 'security-request'][(i // 4) % 2]
@@ -144,6 +151,11 @@ def plan(tier, seed):
             tamper=({'pdu': rng.choice(['confirm', 'random', 'dhkey', 'pubkey']), 'role': rng.randrange(2),
                      'nth': rng.choice([1, 1, 2, 7, 20]), 'byte': rng.randrange(16), 'bit': rng.randrange(8)}
                     if rng.random() < 0.1 else None)))
+        c = cases[-1]
+        if start == 'central' and rng2.random() < 0.3:
+            c['initiator'] = 'peripheral'
+        if rng2.random() < 0.3:
+            c['think'] = [think_time(), think_time()]
     for c in cases:
         if c['kind'] == 'mix' and c['tamper'] is not None:
             c['passkey'] = None    # keep the 000000 class and the tampering classes apart
@@ -209,6 +221,10 @@ def plan(tier, seed):
                     cases.append(_base('reconnect', nxt(), io=list(io), sc=[sc, sc], ikd=[ik, ik], rkd=[rk, rk],
                                        start=rng.choice(['central', 'security-request']),
                                        delay=rng.choice([0, 1, 3]), reconnect=['same', 'swapped', 'same']))
+                    # the same bond made by a pairing the link Peripheral started
+                    cases.append(_base('reconnect', nxt(), io=list(io), sc=[sc, sc], ikd=[ik, ik], rkd=[rk, rk],
+                                       initiator='peripheral', delay=rng2.choice([0, 1, 3]),
+                                       reconnect=['same', 'swapped', 'same']))
     # (5) OOB (authenticated without any user interaction) and CTKD over BR/EDR
     for _rep in range(nrec):
         for variant in ('sc-both', 'sc-initiator-has-peer-data', 'sc-responder-has-peer-data', 'legacy-both'):
@@ -218,6 +234,95 @@ def plan(tier, seed):
             for kd in (3, 1, 7):
                 cases.append(_base('ctkd', nxt(), lk_auth=lk_auth, ikd=[kd, kd], rkd=[kd, kd],
                                    io=[rng.choice(IO), rng.choice(IO)]))
+
+    def answers(ak, dev):
+        ans = {'passkey': ['right', 'right'], 'wrong_bit': rng2.randrange(20), 'compare': [True, True],
+               'confirm': [True, True], 'accept': True}
+        if ak == 'wrong':
+            ans['passkey'][dev] = 'wrong'
+        elif ak == 'none':
+            ans['passkey'][dev] = 'none'
+        elif ak == 'compare-no':
+            ans['compare'][dev] = False
+        elif ak == 'confirm-no':
+            ans['confirm'][dev] = False
+        elif ak == 'accept-no':
+            ans['accept'] = False
+        return ans
+
+    def answer_kinds():
+        """(answer kind, SMP role of the user who gives it): the honest pair + every refusal by either user."""
+        yield 'ok', 0
+        for ak in ('wrong', 'none', 'compare-no', 'confirm-no', 'accept-no'):
+            for role in (0, 1):
+                if ak == 'accept-no' and role == 0:
+                    continue        # only the responder is asked whether to accept
+                yield ak, role
+
+    # (6) the whole table again with the link Peripheral as the SMP initiator (pair() called on the peripheral's
+    #     connection): Table 2.8 is indexed by SMP role, not by link role
+    for _rep in range(reps):
+        for sc in (False, True):
+            for a in IO:
+                for b in IO:
+                    for mitm in ([True, True], [True, False], [False, True], [False, False]):
+                        # io / mitm are per DEVICE: device 1 (link peripheral) is the initiator and gets `a`
+                        cases.append(_base('ptable', nxt(), io=[b, a], sc=[sc, sc], mitm=[mitm[1], mitm[0]],
+                                           ikd=[7, 7], rkd=[7, 7], initiator='peripheral',
+                                           delay=rng2.choice([0, 0, 1, 3]) if _rep else 0,
+                                           passkey=rng2.choice(PASSKEY_BOUNDARY) if _rep and rng2.random() < 0.3 else None))
+                        # and with the link Peripheral asking for security (Security Request -> the Central pairs)
+                        cases.append(_base('srtable', nxt(), io=[a, b], sc=[sc, sc], mitm=mitm, ikd=[7, 7], rkd=[7, 7],
+                                           start='security-request', delay=rng2.choice([0, 0, 1, 3]) if _rep else 0))
+    # (7) users who take their time: every answer of every model, given late (after everything in flight has been
+    #     delivered, or between two protocol messages), by the initiator's or the responder's user, with the other
+    #     user fast or slow too, whoever (link central / link peripheral) initiated
+    for _rep in range(reps):
+        for sc in (False, True):
+            for mname, io in model_io.items():
+                for initiator in ('central', 'peripheral'):
+                    ci = 0 if initiator == 'central' else 1     # device index of the SMP initiator
+                    for ak, role in answer_kinds():
+                        dev = ci if role == 0 else 1 - ci
+                        turns = lambda: -rng2.choice([1, 2, 3, 5, 8, 13, 21, 34, 55])
+                        for pattern in ('late-s', 'late-turns', 'peer-late-s', 'both-late-s', 'both-late-turns'):
+                            th = [0, 0]
+                            if pattern == 'late-s':
+                                th[dev] = rng2.choice([0.3, 2.0, 9.0])
+                            elif pattern == 'late-turns':
+                                th[dev] = turns()
+                            elif pattern == 'peer-late-s':
+                                th[1 - dev] = rng2.choice([0.3, 2.0, 9.0])
+                            elif pattern == 'both-late-s':
+                                th[dev], th[1 - dev] = 4.0, 1.0
+                            else:
+                                th[dev], th[1 - dev] = turns(), turns()
+                            # io per device: model_io is (initiator io, responder io)
+                            dio = [io[0], io[1]] if ci == 0 else [io[1], io[0]]
+                            cases.append(_base('think', nxt(), io=dio, sc=[sc, sc], answers=answers(ak, dev),
+                                               initiator=initiator, think=th, delay=rng2.choice([0, 1, 3]),
+                                               ikd=[rng2.choice([1, 3, 7]), 7], rkd=[7, rng2.choice([1, 3, 7])]))
+    # (8) pairing again on the same connection: after a refused / failed pairing (the users try again), after a
+    #     completed one (re-pairing), and twice in a row
+    for _rep in range(reps):
+        for sc in (False, True):
+            for mname, io in model_io.items():
+                for initiator in ('central', 'peripheral'):
+                    ci = 0 if initiator == 'central' else 1
+                    dio = [io[0], io[1]] if ci == 0 else [io[1], io[0]]
+                    seqs = []
+                    for ak, role in answer_kinds():
+                        dev = ci if role == 0 else 1 - ci
+                        seqs.append([answers(ak, dev), answers('ok', 0)])           # X then honest
+                        if ak != 'ok':
+                            seqs.append([answers('ok', 0), answers(ak, dev)])       # honest then X
+                            if role == 1:
+                                seqs.append([answers(ak, dev), answers(ak, ci), answers('ok', 0)])
+                    for seq in seqs:
+                        cases.append(_base('again', nxt(), io=dio, sc=[sc, sc], answers=seq[0], initiator=initiator,
+                                           attempts=[{'answers': a} for a in seq[1:]],
+                                           delay=rng2.choice([0, 0, 1, 3]), think=[rng2.choice([0, 0, 0, 1.0, -5]), 0],
+                                           ikd=[3, 3], rkd=[3, 3]))
     return cases
 
 
@@ -239,6 +344,37 @@ class Users:
         self.refusals = []      # negative answers that were actually given: (side, what)
         self.agreed = case['passkey'] if case.get('passkey') is not None else rng.randrange(1000000)
         self.changed = asyncio.Event()
+        self.hw = []            # (side, what): a prompt the device's hardware cannot serve was requested
+        self.pending = {0: [], 1: []}    # prompts of each side's user that are asked and not yet answered
+        self.premature = []     # (side, pending prompts) when that side reported completion with a prompt open
+        self.late_answers = 0   # answers that were given after a think time
+
+    def begin(self, case):
+        """A further pairing attempt on the same connection: same two people, fresh screens."""
+        self.case = case
+        self.ans = case['answers']
+        self.calls = {0: [], 1: []}
+        self.displayed = {0: None, 1: None}
+        self.entered = {0: None, 1: None}
+        self.asking = {0: False, 1: False}
+        self.compare = {0: None, 1: None}
+        self.refusals = []
+        self.hw = []
+        self.pending = {0: [], 1: []}
+        self.premature = []
+
+    async def think(self, side):
+        """The time this side's user takes before answering: case['think'][side] > 0 is virtual
+        seconds (every protocol message in flight has long been delivered), < 0 is that many loop
+        turns (the answer lands between two protocol messages)."""
+        d = (self.case.get('think') or [0, 0])[side]
+        if d < 0:
+            for _ in range(-d):
+                await asyncio.sleep(0)
+        elif d > 0:
+            await asyncio.sleep(d)
+        if d:
+            self.late_answers += 1
 
     def poke(self):
         self.changed.set()
@@ -260,50 +396,84 @@ class Users:
 def make_delegate(users: Users, side: int, io: int, ikd: int, rkd: int):
     from bumble.pairing import PairingDelegate
 
+    # what the hardware of each IO capability (Vol 3 Part H Table 2.3/2.4/2.5) can do
+    can_type = io in (rs.KEYBOARD_ONLY, rs.KEYBOARD_DISPLAY)
+    can_show = io in (rs.DISPLAY_ONLY, rs.DISPLAY_YES_NO, rs.KEYBOARD_DISPLAY)
+    can_yes_no = io in (rs.DISPLAY_YES_NO, rs.KEYBOARD_DISPLAY)
+
+    class asked:
+        """Marks a prompt as open for the time the user needs to answer it."""
+
+        def __init__(self, what):
+            self.what = what
+
+        def __enter__(self):
+            users.pending[side].append(self.what)
+
+        def __exit__(self, *exc):
+            users.pending[side].remove(self.what)
+            users.poke()
+            return False
+
     class Recording(PairingDelegate):
         async def accept(self):
             users.calls[side].append(('accept', None))
-            if not users.ans['accept']:
-                users.refusals.append((side, 'accept-rejected'))
-            return users.ans['accept']
+            with asked('accept'):
+                await users.think(side)
+                if not users.ans['accept']:
+                    users.refusals.append((side, 'accept-rejected'))
+                return users.ans['accept']
 
         async def confirm(self, auto: bool = False):
             users.calls[side].append(('confirm', auto))
-            if not users.ans['confirm'][side]:
-                users.refusals.append((side, 'confirm-rejected'))
-            return users.ans['confirm'][side]
+            with asked('confirm'):
+                await users.think(side)
+                if not users.ans['confirm'][side]:
+                    users.refusals.append((side, 'confirm-rejected'))
+                return users.ans['confirm'][side]
 
         async def compare_numbers(self, number, digits):
             users.calls[side].append(('compare_numbers', number))
-            users.compare[side] = number
-            users.poke()
-            await users.wait_for(lambda: users.compare[1 - side] is not None)
-            other = users.compare[1 - side]
-            if not users.ans['compare'][side]:
-                users.refusals.append((side, 'compare-rejected'))
+            if not (can_show and can_yes_no):
+                users.hw.append((side, f'compare-on-{IO_NAME[io]}'))
                 return False
-            if other is not None and other != number:
-                users.refusals.append((side, 'compare-values-differ'))
-                return False
-            return True
+            with asked('compare_numbers'):
+                users.compare[side] = number
+                users.poke()
+                await users.wait_for(lambda: users.compare[1 - side] is not None)
+                await users.think(side)
+                other = users.compare[1 - side]
+                if not users.ans['compare'][side]:
+                    users.refusals.append((side, 'compare-rejected'))
+                    return False
+                if other is not None and other != number:
+                    users.refusals.append((side, 'compare-values-differ'))
+                    return False
+                return True
 
         async def get_number(self):
             users.calls[side].append(('get_number', None))
-            users.asking[side] = True
-            users.poke()
-            await users.wait_for(lambda: users.displayed[1 - side] is not None or users.asking[1 - side])
-            base = users.displayed[1 - side]
-            if base is None:
-                base = users.agreed
-            how = users.ans['passkey'][side]
-            if how == 'none':
-                users.refusals.append((side, 'passkey-declined'))
+            if not can_type:
+                # no keys to type six digits with: the stack gets no number, the user is not at fault
+                users.hw.append((side, f'input-on-{IO_NAME[io]}'))
                 return None
-            if how == 'wrong':
-                users.refusals.append((side, 'wrong-passkey'))
-                base ^= 1 << users.ans['wrong_bit']
-            users.entered[side] = base
-            return base
+            with asked('get_number'):
+                users.asking[side] = True
+                users.poke()
+                await users.wait_for(lambda: users.displayed[1 - side] is not None or users.asking[1 - side])
+                await users.think(side)
+                base = users.displayed[1 - side]
+                if base is None:
+                    base = users.agreed
+                how = users.ans['passkey'][side]
+                if how == 'none':
+                    users.refusals.append((side, 'passkey-declined'))
+                    return None
+                if how == 'wrong':
+                    users.refusals.append((side, 'wrong-passkey'))
+                    base ^= 1 << users.ans['wrong_bit']
+                users.entered[side] = base
+                return base
 
         async def get_string(self, max_length):
             users.calls[side].append(('get_string', max_length))
@@ -311,6 +481,10 @@ def make_delegate(users: Users, side: int, io: int, ikd: int, rkd: int):
 
         async def display_number(self, number, digits):
             users.calls[side].append(('display_number', number))
+            if not can_show:
+                # nothing to show it on: the other user never sees a number
+                users.hw.append((side, f'display-on-{IO_NAME[io]}'))
+                return
             users.displayed[side] = number
             users.poke()
 
@@ -537,23 +711,83 @@ def describe(case):
 # =============================================================================
 # one LE pairing + all oracles
 # =============================================================================
+class Suffixed:
+    """View of the result accumulator that appends a class suffix to every violation key: the
+    same oracle judges a further pairing attempt on the same connection, but what it finds there
+    is a different mechanism (state left behind by the earlier attempt)."""
+
+    def __init__(self, r, sfx):
+        object.__setattr__(self, '_r', r)
+        object.__setattr__(self, '_sfx', sfx)
+
+    def _key(self, key):
+        # clause + pairing mode + what went before: the association model and the answers of THIS attempt are not
+        # what discriminates a defect caused by leftovers of the previous attempt
+        return '/'.join(key.split('/')[:3]) + self._sfx
+
+    def bad(self, key, detail, trace_tail=None):
+        self._r.bad(self._key(key), detail, trace_tail)
+
+    def check(self, cond, key, detail=''):
+        return self._r.check(cond, self._key(key), detail)
+
+    def __getattr__(self, name):
+        return getattr(self._r, name)
+
+    def __setattr__(self, name, value):
+        setattr(self._r, name, value)
+
+
 async def le_case(case, r: R):
+    w = await World().start(case, r)
+    rg, users = w.rg, w.users
+    cc, pc = await rg.connect_le(0, 1)          # device 0 is the link Central, device 1 the link Peripheral
+    await rg.quiesce()
+    w.handle_of = {0: cc.handle, 1: pc.handle}
+    conns = {0: cc, 1: pc}
+    # C = the device that sends the Pairing Request (SMP initiator), P = the SMP responder. The SMP roles are
+    # independent of the link roles: bumble lets the application of the link Peripheral call pair() too.
+    w.C = 1 if case.get('initiator') == 'peripheral' else 0
+    w.P = 1 - w.C
+    w.outcome = {0: [], 1: []}
+
+    def on_paired(i, keys):
+        w.outcome[i].append(('paired', keys))
+        if users.pending[i]:
+            users.premature.append((i, list(users.pending[i])))
+
+    for i in (0, 1):
+        conns[i].on('pairing', lambda keys, _i=i: on_paired(_i, keys))
+        conns[i].on('pairing_failure', lambda reason, _i=i: w.outcome[_i].append(('failed', int(reason))))
+    w.install_tamper(w.C)
+    prev = None
+    attempts = [case] + [dict(case, tamper=None, reconnect=[], **a) for a in (case.get('attempts') or [])]
+    for k, sub in enumerate(attempts):
+        if k:
+            users.begin(sub)
+            w.outcome = {0: [], 1: []}
+            r.ev('further_attempts_on_same_connection')
+            r.ev(f'further_attempt_after_{prev}')
+        prev = await one_pairing(w, sub, r if k == 0 else Suffixed(r, f'/again-after-{prev}'), conns, k, prev,
+                                 last=(k == len(attempts) - 1))
+        if prev is None:
+            break
+
+
+async def one_pairing(w, case, r, conns, k, prev, last):
+    """One pairing on the (already connected) link + all oracles. Returns 'paired' / 'failed' / 'mixed',
+    or None when nothing more can be learnt from this connection (hang)."""
     from bumble.core import ProtocolError
     from vlib import rig as vrig
 
-    w = await World().start(case, r)
     rg, users = w.rg, w.users
-    desc = describe(case)
-    C, P = 0, 1
-    cc, pc = await rg.connect_le(C, P)
-    await rg.quiesce()
-    w.handle_of = {C: cc.handle, P: pc.handle}
-    conns = {C: cc, P: pc}
-    outcome = {C: [], P: []}
-    for i in (C, P):
-        conns[i].on('pairing', lambda keys, _i=i: outcome[_i].append(('paired', keys)))
-        conns[i].on('pairing_failure', lambda reason, _i=i: outcome[_i].append(('failed', int(reason))))
-    w.install_tamper(C)
+    C, P = w.C, w.P
+    desc = describe(case) + (f' [attempt {k + 1} on the same connection, the previous one ended {prev}]' if k else '')
+    outcome = w.outcome
+    w.log_mark = len(rg.hci_log)
+    hits0 = w.tamper_hits
+    enc_before = {i: bool(conns[i].is_encrypted) for i in (0, 1)}
+    stores_before = {i: {n: keys_dict(kk) for n, kk in store_keys(rg.devices[i])} for i in (0, 1)}
 
     # what the table says for this configuration (used for keys and for the verdict)
     def auth_bits(i):
@@ -566,13 +800,13 @@ async def le_case(case, r: R):
     elif oobv:
         oob_flags = [1 if w.oob_peer[0] is not None else 0, 1 if w.oob_peer[1] is not None else 0]
     exp_sc, (exp_model, exp_ri, exp_rr) = rs.expected_model(
-        case['io'][C], case['io'][P], auth_bits(C), auth_bits(P), oob_flags[0], oob_flags[1])
+        case['io'][C], case['io'][P], auth_bits(C), auth_bits(P), oob_flags[C], oob_flags[P])
     mode = 'sc' if exp_sc else 'legacy'
     iokey = f'io-{IO_NAME[case["io"][C]]}-{IO_NAME[case["io"][P]]}'
 
     async def do_pair():
         try:
-            await cc.pair()
+            await conns[C].pair()
             return ('ok', None)
         except ProtocolError as e:
             return ('failed', e.error_code)
@@ -582,12 +816,13 @@ async def le_case(case, r: R):
             return ('raised', f'{type(e).__name__}: {e}')
 
     r.ev('pairings')
+    r.ev(f'pairings_initiated_by_link_{"peripheral" if C == 1 else "central"}')
     r.evals()
     hang = False
     if case['start'] == 'security-request':
         got = asyncio.get_running_loop().create_future()
-        cc.on('security_request', lambda auth_req: got.done() or got.set_result(auth_req))
-        pc.request_pairing()
+        conns[C].once('security_request', lambda auth_req: got.done() or got.set_result(auth_req))
+        conns[P].request_pairing()
         try:
             auth_req = await vloop.vwait(got, 60)
             r.ev('security_requests')
@@ -595,7 +830,7 @@ async def le_case(case, r: R):
                     f'security request carried auth_req {int(auth_req):#x}, peripheral config {auth_bits(P):#x}; {desc}')
         except vloop.Hang:
             r.bad('hang/security-request', f'security request never reached the central application; {desc}')
-            return
+            return None
     try:
         res = await vloop.vwait(do_pair())
     except vloop.Hang:
@@ -607,20 +842,31 @@ async def le_case(case, r: R):
             break
         await asyncio.sleep(1)
     await rg.quiesce()
+    # a user who is still looking at a prompt gives the answer, however late it is, and the stack sees it
+    for _ in range(60):
+        if not (users.pending[C] or users.pending[P]):
+            break
+        await asyncio.sleep(1)
+    await rg.quiesce()
+    if users.late_answers:
+        r.ev('answers_given_after_think_time', users.late_answers)
+        users.late_answers = 0
 
     # ---- the wire ------------------------------------------------------------
-    pdus = rs.transcript(vrig.l2cap_log(rg.hci_log, direction=vrig.H2C))
+    log = rg.hci_log[w.log_mark:]
+    pdus = rs.transcript(vrig.l2cap_log(log, direction=vrig.H2C))
     cands = [0, users.agreed] + [v for v in (users.displayed[0], users.displayed[1], users.entered[0], users.entered[1])
                                  if v is not None]
     if w.oob_tk is not None:
         cands.append(int.from_bytes(w.oob_tk, 'little'))
     an = rs.analyse(pdus, addr_le, cands)
-    tampered = w.tamper_hits > 0
+    tampered = w.tamper_hits > hits0
     if tampered:
         r.ev('tamper_applied')
         r.ev(f'tamper_applied_{case["tamper"]["pdu"]}')
     if an.initiator is not None:
-        r.check(an.initiator == C, 'pairing/request-from-peripheral', f'pairing request sent by device {an.initiator}; {desc}')
+        r.check(an.initiator == C, 'pairing/request-from-peripheral',
+                f'pairing request sent by device {an.initiator}, pair() was called on device {C}; {desc}')
     for (s, code, ln) in an.malformed:
         r.bad('pairing/wire/malformed-pdu', f'device {s} sent SMP code {code:#x} with {ln} bytes; {desc}')
 
@@ -676,6 +922,32 @@ async def le_case(case, r: R):
     elif not paired and not hang:
         r.ev('honest_case_not_paired')
         r.add_extra_list('honest_failures', f'{mode}/{exp_model}/{iokey}: {res} {fin}')
+    think = case.get('think') or [0, 0]
+    if think[C] or think[P]:
+        r.ev('think_time_cases')
+        if users.refusals:
+            r.ev('late_refusal_cases' if think[users.refusals[0][0]] else 'refusal_with_late_peer_cases')
+            r.ev(f'late_refusal_{mode}_{exp_model}')
+        elif paired:
+            r.ev('late_honest_answers_paired')
+    # nobody reports completion while its own user is still looking at a prompt: the answer may be NO
+    r.check(not users.premature, f'pairing/completed-before-user-answered/{mode}/{exp_model}',
+            f'{[("initiator" if i == C else "responder", p) for i, p in users.premature]} reported "pairing" with these '
+            f'prompts still open; answers given afterwards: refusals={users.refusals}; {desc}')
+    # nobody is asked for something its declared IO capability cannot do (Vol 3 Part H Tables 2.3-2.5)
+    r.ev('hardware_prompt_checks', len(users.calls[C]) + len(users.calls[P]))
+    link_role = {0: 'link-central', 1: 'link-peripheral'}
+    for i, hw in users.hw:
+        r.bad(f'pairing/prompt-impossible-for-io/{hw}/{mode}/{"initiator" if i == C else "responder"}-is-{link_role[i]}',
+              f'device {i} ({IO_NAME[case["io"][i]]}, SMP {"initiator" if i == C else "responder"}, {link_role[i]}) was asked to '
+              f'{hw.split("-on-")[0]}; Table 2.8 for initiator {IO_NAME[case["io"][C]]} / responder {IO_NAME[case["io"][P]]} gives '
+              f'{exp_model}: initiator {exp_ri}, responder {exp_rr}; calls: initiator {users.calls[C]} responder {users.calls[P]}; {desc}')
+    # a refused / corrupted pairing leaves no encrypted link behind
+    if negative and not (enc_before[C] or enc_before[P]):
+        r.ev('not_encrypted_after_failure_checks')
+        r.check(not conns[C].is_encrypted and not conns[P].is_encrypted, f'pairing/encrypted-after-failure/{what}/{mode}',
+                f'link encrypted: initiator {conns[C].is_encrypted} responder {conns[P].is_encrypted} after {what}; '
+                f'outcome initiator {fin[C]} responder {fin[P]}; {desc}')
 
     # ---- stores after a failure ---------------------------------------------------
     stores = {i: store_keys(rg.devices[i]) for i in (C, P)}
@@ -683,9 +955,11 @@ async def le_case(case, r: R):
         for i in (C, P):
             if fin[i] == 'paired':
                 continue   # reported under outcome-disagree
-            r.check(not stores[i], f'pairing/keys-stored-after-failure/{what or "no-refusal"}',
+            now = {n: keys_dict(kk) for n, kk in stores[i]}
+            r.check(now == stores_before[i], f'pairing/keys-stored-after-failure/{what or "no-refusal"}',
                     f'device {i} ({"initiator" if i == C else "responder"}) reported {fin[i]} but its key store holds '
-                    f'{[(n, sorted(keys_dict(k))) for n, k in stores[i]]}; other side {fin[1 - i]}; {desc}')
+                    f'{[(n, sorted(kk)) for n, kk in now.items()]} (before this pairing: {sorted(stores_before[i])}'
+                    f'{", values changed" if sorted(now) == sorted(stores_before[i]) else ""}); other side {fin[1 - i]}; {desc}')
 
     # ---- association model -----------------------------------------------------
     roles = {C: side_role(users.calls[C]), P: side_role(users.calls[P])}
@@ -698,13 +972,17 @@ async def le_case(case, r: R):
         r.ev(f'model_{mode}_{exp_model}')
         if case['kind'] == 'table':
             r.ev('table_cells')
+        if case['kind'] == 'ptable':
+            r.ev('peripheral_initiated_table_cells')
+        if case['kind'] == 'srtable':
+            r.ev('security_request_table_cells')
         # the wire must show the negotiation the configuration implies
         want_pres_auth = ((rs.AUTH_BONDING if case['bonding'][C] and case['bonding'][P] else 0)
                           | (rs.AUTH_MITM if case['mitm'][P] else 0)
                           | (rs.AUTH_SC if case['sc'][C] and case['sc'][P] else 0))
         r.check(an.preq[1] == case['io'][C] and an.pres[1] == case['io'][P]
                 and an.preq[3] & 0x0F == auth_bits(C) and an.pres[3] & 0x0F == want_pres_auth
-                and an.preq[2] == oob_flags[0] and an.pres[2] == oob_flags[1],
+                and an.preq[2] == oob_flags[C] and an.pres[2] == oob_flags[P],
                 'pairing/wire/request-response-fields',
                 f'preq={an.preq.hex()} pres={an.pres.hex()} for {desc}')
         r.check(an.sc == exp_sc, f'pairing/sc-negotiation/{mode}', f'wire says sc={an.sc}; {desc}')
@@ -754,14 +1032,18 @@ async def le_case(case, r: R):
     r.sched.add(rg.schedule_signature)
 
     # ---- reconnection ---------------------------------------------------------
-    if paired and case.get('reconnect') and an.bonding_both:
+    if last and paired and case.get('reconnect') and an.bonding_both:
         await reconnect(w, an, r, mode, conns, case['reconnect'], desc)
-    for where, e in rg.exceptions:
+    for where, e in rg.exceptions[getattr(w, 'exc_mark', 0):]:
         r.bad(f'pairing/exception-in-stack/{mode}', f'{where}: {e}; {desc}')
+    w.exc_mark = len(rg.exceptions)
+    if hang:
+        return None
+    return 'paired' if paired else ('failed' if (agree and fin[C] == 'failed') else 'mixed')
 
 
 def check_wire_commitments(w, an, r, mode, exp_model, obs_model, roles, users, paired, desc):
-    C, P = 0, 1
+    C, P = w.C, w.P
     if mode == 'legacy':
         if an.tk_by_role:
             r.ev('wire_commit_checks')
@@ -819,12 +1101,12 @@ def check_wire_commitments(w, an, r, mode, exp_model, obs_model, roles, users, p
 
 def check_success(w, an, r, mode, obs_model, exp_model, conns, stores, outcome, desc, tampered):
     from bumble import hci
-    C, P = 0, 1
+    C, P = w.C, w.P
     rg, users, case = w.rg, w.users, w.case
     for i in (C, P):
         r.check(conns[i].is_encrypted, f'pairing/not-encrypted/{mode}', f'device {i} reports success but its link is not encrypted; {desc}')
     # --- the key the link was encrypted with -----------------------------------
-    cmds = rs.le_enable_encryption_commands(rg.hci_log)
+    cmds = rs.le_enable_encryption_commands(rg.hci_log[w.log_mark:])
     r.check(len(cmds) == 1 and cmds[0][1] == C and cmds[0][2] == conns[C].handle, f'pairing/encryption-command/{mode}',
             f'{len(cmds)} LE Enable Encryption commands {[(c[1], c[2]) for c in cmds]}; {desc}')
     link_key_used = None
@@ -848,8 +1130,8 @@ def check_success(w, an, r, mode, obs_model, exp_model, conns, stores, outcome, 
                 ra = rb = int(pk).to_bytes(16, 'little')
             elif exp_model == rs.OOB:
                 # ra / rb: the OOB random of A / B if the OTHER side received it, else 0
-                ra = w.oob_ctx_r[0] if w.oob_peer[1] is not None else bytes(16)
-                rb = w.oob_ctx_r[1] if w.oob_peer[0] is not None else bytes(16)
+                ra = w.oob_ctx_r[C] if w.oob_peer[P] is not None else bytes(16)
+                rb = w.oob_ctx_r[P] if w.oob_peer[C] is not None else bytes(16)
             else:
                 ra = rb = bytes(16)
             d = w.scalars[C] if not case.get('oob') else w.oob_scalars[C]
@@ -1008,7 +1290,7 @@ async def reconnect(w, an, r, mode, conns, steps, desc):
             has_key = True
         else:
             # the device that is peripheral NOW must have distributed its LTK at pairing time
-            role_then = 0 if peripheral == 0 else 1       # device 0 was the initiator
+            role_then = 0 if peripheral == w.C else 1     # SMP role (0 = initiator) of that device at pairing time
             has_key = 'ltk' in an.distributed[role_then]
         mark = len(rg.hci_log)
         nprov = len(w.provider_answers)
@@ -1062,7 +1344,7 @@ async def reconnect(w, an, r, mode, conns, steps, desc):
         if mode == 'sc':
             want = store_keys(rg.devices[0])[0][1].ltk.value
         else:
-            role_then = 0 if peripheral == 0 else 1
+            role_then = 0 if peripheral == w.C else 1
             want = an.distributed[role_then]['ltk']
             r.check(ediv == an.distributed[role_then].get('ediv') and rand == an.distributed[role_then].get('rand'),
                     f'reconnect/ediv-rand-wrong/{key}',
